@@ -555,6 +555,11 @@ class Tr:
                 assigns.append(node)          # `x = …` or an attribute target such as `self._center = …`
             elif isinstance(node, ast.AnnAssign) and ast.unparse(node.target) == self.f.target and node.value is not None:
                 assigns.append(node)
+            elif isinstance(node, ast.AugAssign) and ast.unparse(node.target) == self.f.target:
+                syn = ast.Assign(targets=[node.target], value=ast.BinOp(left=ast.Name(id=self.f.target, ctx=ast.Load()),
+                                                                          op=node.op, right=node.value))
+                syn.lineno, syn.col_offset = node.lineno, node.col_offset
+                assigns.append(syn)           # `x op= e` read as `x = x op e`
             elif isinstance(node, ast.Return) and self.f.target == "return" and node.value is not None:
                 assigns.append(node)          # target "return": the returned expressions, in source order
         assigns.sort(key=lambda a: (a.lineno, a.col_offset))
